@@ -104,6 +104,19 @@ class ClassInfo:
 
 
 class Repo:
+    def attr_assign_sites(self):
+        """attribute name -> ['module:line'] of every `<expr>.name = ...` / `<expr>.name += ...` in the repository (tests excluded)"""
+        if getattr(self, "_attr_sites", None) is None:
+            out = {}
+            for m in self.modules.values():
+                for n in ast.walk(m.tree):
+                    if isinstance(n, (ast.Assign, ast.AugAssign, ast.AnnAssign)):
+                        for t in (n.targets if isinstance(n, ast.Assign) else [n.target]):
+                            if isinstance(t, ast.Attribute):
+                                out.setdefault(t.attr, []).append("%s:%d" % (m.name, n.lineno))
+            self._attr_sites = out
+        return self._attr_sites
+
     def __init__(self, root=None):
         self.root = root or REPO
         self.modules = {}
